@@ -151,6 +151,32 @@ func c10ParseCache(ctx *core.Ctx, cc *CC) {
 	if len(uses) == 0 {
 		ctx.Discharge("C10.R8", QName(pf)+" › no cache use", cc.FPos(pf), "the memo map is not consulted")
 	}
+	// the cache lives for one parse: every caller other than the recursion
+	// itself hands over a map it has just made (a package-level or otherwise
+	// long-lived cache returns the model of a file as it was when first read)
+	ci := -1
+	for i, p := range pf.Params {
+		if p == cache {
+			ci = i
+		}
+	}
+	for _, fn := range cc.Fns {
+		if fn.Pkg != pf.Pkg || fn == pf {
+			continue
+		}
+		for _, c := range ssax.Calls(fn) {
+			if c.Static != pf || ci >= len(c.Common.Args) {
+				continue
+			}
+			arg := ssax.Strip(c.Common.Args[ci])
+			_, fresh := arg.(*ssa.MakeMap)
+			if mm, ok := arg.(*ssa.MakeMap); ok && mm.Parent() != fn {
+				fresh = false
+			}
+			ctx.Check(fresh, "C10.R8", QName(fn)+" › the parse cache is made for this parse", cc.IPos(c.Instr), "map literal / make at the call",
+				"the cache handed to the recursive parser ("+arg.String()+") outlives the parse: a file that was parsed before is never read again, so the model no longer reflects the text — an IDL edited or generated during the run, or included by a later file, is seen in its old state (or rejected for a type it now declares)")
+		}
+	}
 }
 
 // dependsOn: is target in the backward data slice of v (through operands of
